@@ -380,7 +380,7 @@ def stream_sampleN(ctx, built, ntables, max_rows=80, name="S-sampleN"):
         parts = [f"{ncols} " + " ".join(conv_tok(c) for c in syn.column_convertors),
                  " ".join("1" if b else "0" for b in syn.column_is_integral),
                  " ".join(f2b(float(e)) for e in syn.entropy_1dim),
-                 " ".join(ctoks),
+                 "NO" if strat is NoClustering else ("SINGLE" if strat is SingleClustering else " ".join(ctoks)),      # these two plans are computed by the model
                  " ".join(_draw_toks(main.log))]
         for k in range(0, len(recs) - 1, 2):
             parts.append(" ".join(str(e[3]) for e in recs[k].log if e[0] == "randint"))
